@@ -70,7 +70,9 @@ func (lfu *LFUCacheEvictionPolicy) TrackSetAndReturnEvictedKeys(key string, size
 	lfu.evictionChecker.TrackSet(key, size)
 
 	evictedKeys := []string{}
-	for lfu.evictionChecker.ShouldEvict() {
+	// Nothing is left to evict when the entry being set is itself larger than
+	// the limit; popping an empty heap would panic.
+	for lfu.evictionChecker.ShouldEvict() && lfu.minLFUCacheHeap.Len() > 0 {
 		cacheEntryToEvict := heap.Pop(&lfu.minLFUCacheHeap).(*LFUCacheEntry)
 		lfu.evictionChecker.TrackRemove(cacheEntryToEvict.key)
 		evictedKeys = append(evictedKeys, cacheEntryToEvict.key)
